@@ -47,7 +47,15 @@ def configs(thorough, rng):
             d = dict(c)
             d["dest_appears"] = True
             extra.append(d)
-    return out + extra
+    for c in out[::3]:
+        if c["dest_present"] and c["part_present"]:
+            d = dict(c)
+            d["part_present"] = "link"
+            extra.append(d)
+    allc = out + extra
+    for i, c in enumerate(allc):
+        c["retry_same_object"] = (i % 2 == 0)     # half of the retries reuse the AtomicSaver object
+    return allc
 
 
 def _job(job):
